@@ -8,7 +8,7 @@ FACETS = {
     "C01": "CK",
     "C02": "SK",
     "C03": "SERK",
-    "C04": "VK",
+    "C04": "VFK",
     "C05": "VRK",
     "C06": "TN",
     "C07": "CSEVRGK",
@@ -48,6 +48,9 @@ def clause_props(K, clause, cfg):
         out = set(K.tprops)
     elif clause.startswith("G."):
         out = {"C07"} if K.guard_relevant else set()
+    elif clause == "F.operands_not_mutated":
+        # no call changes an existing secret object (its value or its wire expression) or a shared constant in place
+        out = set(K.fprops) | ({"C04"} if ("C05" in K.vprops or "C14" in K.vprops or "C03" in K.vprops) else set())
     elif clause.startswith("F."):
         out = set(K.fprops)
     if mode in GUARDED and clause[:2] in ("C.", "S.", "E.", "V.", "R.") and K.guard_relevant:
